@@ -162,6 +162,6 @@ def run(tier, seed):
 
 
 def replay(path, seed):
-    c = Check(PROP, "quick", seed, "model_checking")
+    c = Check(PROP, "quick", seed, "model_checking", replay=True)
     c.validate("cert", "CertHashTrace", "CertHashTrace.cfg", os.path.abspath(path))
     return c.finish()
